@@ -58,6 +58,16 @@ ASSUMPTIONS = [
     "failing loads are history, not judged (whether they raise is C17's business)",
     "sequential histories only (no threads)",
 ]
+
+
+def vacuity(agg):
+    n = agg.probes.get("baseline_unloadable", 0)
+    if agg.evaluations and n * 5 > agg.evaluations:
+        return (f"in {n} of {agg.evaluations} runs the canonical rendering did not load as the first load of a pristine "
+                f"process; nothing could be judged there")
+    return None
+
+
 EXPECTED_PROBES = ("chain_prefix_default_none", "judged_after_malformed", "judged_after_torn", "judged_after_wrong_prefix",
                    "judged_after_dangling", "judged_after_unsupported", "judged_after_io_error", "non_ascii_prefix",
                    "comment_in_list", "context_calibrator_doc", "via_path", "via_str", "via_fileobj", "via_load_xml",
